@@ -7,6 +7,10 @@ BASE = json.load(open("/root/.vp/BASELINE.json"))["cmd"] if Path("/root/.vp/BASE
     "cd /repo && /venv/bin/python -m pytest -ra -q -p no:cacheprovider --timeout=900 --continue-on-collection-errors --junitxml=<file>"
 
 CHECKS = {
+ "C03": dict(cat="exploration", ref="§C03, §3.3, §3.5",
+    tech="property-based testing (Hypothesis): generated models x instances x user prefix maps x writers; oracles = two independent XML parsers (libxml2 strict, expat namespace mode) + an independent reference reading of the metadata compared node by node with values checked through a reference lexical model",
+    text="Generated search over models, instances (all of Unicode, XML-illegal code points in a labelled fraction), both writers and user prefix maps (default namespace, collisions with generated prefixes, duplicates, hostile prefixes). The output must be well-formed for two independent parsers and equal - names, namespaces, nesting, order, xsi:nil/xsi:type, typed values, QName content resolved in scope - to the document vlib/expect.py derives from the ModelSpec alone; hostile input may instead raise a ValueError-derived xsdata error. Searched, not proved.",
+    note="Trusts vlib/expect.py (independent implementation of docs/models/*.md), vlib/xsdref.py and the two parsers; recorded findings excluded by construction and replayed."),
  "C08": dict(cat="exploration", ref="§C08, §3.3",
     tech="property-based testing (Hypothesis) with differential oracles: lxml writer vs pure-Python writer vs TreeSerializer on a canonical infoset; {lxml, native} handlers x {bytes, str, path, file object, tree, element} sources on structural equality",
     text="Generated models, instances and configurations; the three writer back ends must yield the same canonical infoset (prefix-independent, declaration-sensitive), and every handler/source combination must yield structurally equal objects (or all raise) for the written document and for variants decorated with comments and processing instructions between elements and inside character data. Searched, not proved.",
